@@ -201,8 +201,8 @@ export function printNodes(nodes, st) {
   let s = ''
   let prevText = false
   for (const n of nodes) {
-    // two adjacent text nodes would fuse into one in WXML; the generator never emits them
-    if (n.t === 'text' && prevText) throw new Error('model: adjacent text nodes')
+    // two adjacent text nodes would fuse into one in WXML: a comment keeps them apart (they stay two nodes)
+    if (n.t === 'text' && prevText) s += st.rng && st.rng.bool(0.3) ? '<!---->' : '<!-- sep -->'
     prevText = n.t === 'text'
     s += printNode(n, st)
   }
@@ -398,7 +398,7 @@ export function genNodes(rng, ctx, depth, maxN = 4) {
   for (let i = 0; i < n; i++) {
     const node = genNode(rng, ctx, depth, prevText)
     if (!node) continue
-    if (node.t === 'text' && prevText) continue
+    if (node.t === 'text' && prevText && !node.afterText) continue
     prevText = node.t === 'text'
     out.push(node)
   }
@@ -473,14 +473,22 @@ function genPlain(rng, ctx, depth) {
 export function genNode(rng, ctx, depth, prevText) {
   const r = rng.int(100)
   if (r < 22 && !prevText) return { t: 'text', v: genTextValue(rng, ctx) }
+  // (now and then a second text node right after a text node: the printer separates them with a comment)
+  if (r < 22 && prevText && rng.bool(0.25)) return { t: 'text', v: genTextValue(rng, ctx), afterText: true }
   if (r < 25) return { t: 'comment', s: rng.pick([' c ', '', 'x', ' <a> ', '{{a}}', ' note\n 😀 ', '漢\n字😀😀', '\r\n😀', '😀']) }
   if (r < 40 && depth > 0) {
     // if-chain
     const nb = rng.range(1, 3)
     const branches = []
     for (let i = 0; i < nb; i++) branches.push({ cond: genCondValue(rng, ctx), node: genPlain(rng, ctx, depth - 1) })
-    const els = rng.bool(0.5) ? genPlain(rng, ctx, depth - 1) : null
+    let els = rng.bool(0.5) ? genPlain(rng, ctx, depth - 1) : null
     if (branches.some((b) => !b.node)) return null
+    // text nodes directly inside a `<block wx:if / wx:elif / wx:else>`, also two in a row (kept apart by a comment)
+    if (rng.bool(0.12)) {
+      const two = () => [{ t: 'text', v: genTextValue(rng, ctx) }, { t: 'text', v: genTextValue(rng, ctx), afterText: true }]
+      if (rng.bool(0.5)) els = { t: 'block', children: [...two(), ...(els && els.t === 'block' ? els.children.filter((n) => n.t !== 'text') : [])] }
+      else { const b = rng.pick(branches); b.node = { t: 'block', children: [...(b.node.t === 'block' ? b.node.children.filter((n) => n.t !== 'text') : [b.node]), ...two()] } }
+    }
     return { t: 'if', branches, els }
   }
   if (r < 55 && depth > 0) {
